@@ -266,8 +266,9 @@ nni_aio_close(nni_aio *aio)
 void
 nni_aio_set_timeout(nni_aio *aio, nni_duration when)
 {
-	aio->a_timeout    = when;
-	aio->a_use_expire = false;
+	aio->a_timeout      = when;
+	aio->a_use_expire   = false;
+	aio->a_timeout_dflt = false;
 }
 
 void
@@ -374,6 +375,13 @@ nni_aio_reset(nni_aio *aio)
 	aio->a_expire_ok        = false;
 	aio->a_sleep            = false;
 	aio->a_skipped_callback = NULL;
+	if (aio->a_timeout_dflt) {
+		// The previous operation replaced NNG_DURATION_DEFAULT by
+		// its owner's timeout; the aio itself still says "default",
+		// whatever socket or context the next operation is for.
+		aio->a_timeout      = NNG_DURATION_DEFAULT;
+		aio->a_timeout_dflt = false;
+	}
 
 	for (unsigned i = 0; i < NNI_NUM_ELEMENTS(aio->a_outputs); i++) {
 		aio->a_outputs[i] = NULL;
@@ -858,7 +866,8 @@ void
 nni_aio_normalize_timeout(nni_aio *aio, nng_duration dur)
 {
 	if (aio->a_timeout == NNG_DURATION_DEFAULT) {
-		aio->a_timeout = dur;
+		aio->a_timeout      = dur;
+		aio->a_timeout_dflt = true;
 	}
 }
 
